@@ -117,6 +117,8 @@ SHARP = [
     ("deep-unary-chain", [("S", ("A",)), ("A", ("B",)), ("B", ("C",)), ("C", ("a",)), ("C", ("a", "S"))]),
     ("useless-cycle", [("S", ("a",)), ("A", ("B",)), ("B", ("A",)), ("S", ("S", "A"))]),
     ("terminal-in-long-body", [("S", ("a", "b", "a")), ("S", ("a", "A", "a")), ("A", ("b",)), ("A", ("A", "b"))]),
+    ("scc3-chord", [("S", ("a", "A")), ("A", ("a", "B")), ("B", ("a", "S")), ("B", ("b", "A")), ("S", ("a",)), ("A", ("b",))]),
+    ("scc3-chord-unary", [("S", ("A",)), ("A", ("B",)), ("B", ("S",)), ("B", ("A",)), ("S", ("a",)), ("B", ("b", "S"))]),
     ("nullable-start-rhs", [("S", ("S", "A")), ("S", ()), ("A", ("a",)), ("A", ())]),
 ]
 
